@@ -260,6 +260,42 @@ def run(ctx):
             rng.shuffle(qg)
             return tj, G, table, qg, minm
 
+        def chain3_case(i):
+            """a choice parent with two ancestors below the root, whose own list names genes the query lacks: its own
+            usable genes plus the nearest ancestor's are short of the minimum (although the LISTED ones would reach it),
+            the second ancestor's complete it; the root's list is different and not needed"""
+            for _ in range(300):
+                tj = maptrace.random_tree(rng, 5, 8, 4)
+                hier = tj['hier']
+                if len(hier) < 4:
+                    continue
+                kid = [dict((a, b) for a, b in tj['kids'][k]) for k in range(len(hier) - 1)]
+                par = [dict((c, a) for a, cs in kid[k].items() for c in cs) for k in range(len(hier) - 1)]
+                cands = [(k, b) for k in range(2, len(hier) - 1) for b, cs in kid[k].items() if len(cs) >= 2]
+                if cands:
+                    break
+            else:
+                return None
+            k, b = rng.choice(cands)
+            a1 = par[k - 1][b]
+            a2 = par[k - 2][a1]
+            G = 10
+            minm = rng.randint(2, 3)
+            genes = list(range(1, G + 1))
+            rng.shuffle(genes)
+            u = rng.randint(0, minm - 2)
+            k1 = minm - 1 - u
+            ab = rng.randint(1, 2)
+            own = genes[:u + ab]
+            absent = own[u:]
+            l1 = genes[u + ab:u + ab + k1]
+            l2 = genes[u + ab + k1:u + ab + k1 + rng.randint(1, 2)]
+            rest = genes[u + ab + k1 + len(l2):]
+            table = [[[0, 0], rest[:max(minm, 2)]], [[hier[k - 2], a2], l2], [[hier[k - 1], a1], l1], [[hier[k], b], own]]
+            qg = [g for g in genes if g not in absent]
+            rng.shuffle(qg)
+            return tj, G, table, qg, minm
+
         def dup_case(i):
             """a choice parent whose list repeats a gene: entries present in the query reach the minimum, distinct
             genes do not, so the ancestors' lists are needed"""
@@ -285,7 +321,7 @@ def run(ctx):
             return tj, G, table, qg, minm
 
         for i in range(n):
-            chain = chain_case(i) if i % 4 == 0 else dup_case(i) if i % 4 == 2 else None
+            chain = chain_case(i) if i % 4 == 0 else dup_case(i) if i % 4 == 2 else chain3_case(i) if i % 8 == 1 else None
             if chain is not None:
                 tj, G, table, qg, minm = chain
                 scheme = ['reversed', 'structural', 'shared', 'reversed'][(i // 4) % 4]
